@@ -599,7 +599,10 @@ int _GD_ValidateField(const char* field_code, size_t nsl, int standards,
     } else if (strict && ((standards >= 5 && (field_code[i] == '<' ||
               field_code[i] == '>' || field_code[i] == ';' ||
               field_code[i] == '|' || field_code[i] == '&')) ||
-          (standards == 5 && (field_code[i] == '\\' || field_code[i] == '#'))))
+          (standards == 5 && (field_code[i] == '\\' || field_code[i] == '#')) ||
+          /* no quoting or escaping before Version 6: neither the comment
+           * delimiter nor whitespace can be part of a name */
+          (standards <= 5 && (field_code[i] == '#' || field_code[i] == ' '))))
     {
       /* these characters are sometimes forbidden */
       dreturn("%i [c]", 1);
